@@ -115,7 +115,7 @@ type envEnvelope struct {
 	AllowedLanguages []i18n.Language `json:"allowed_languages,omitempty" validate:"omitempty,dive,language"`
 	NumberFormat     *NumberFormat   `json:"number_format,omitempty"`
 	DefaultCountry   i18n.Country    `json:"default_country,omitempty" validate:"omitempty,country"`
-	InputCollation   Collation       `json:"input_collation"`
+	InputCollation   Collation       `json:"input_collation" validate:"omitempty,eq=default|eq=confusables|eq=arabic_variants"`
 	RedactionPolicy  RedactionPolicy `json:"redaction_policy" validate:"omitempty,eq=none|eq=urns"`
 }
 
@@ -141,6 +141,9 @@ func ReadEnvironment(data json.RawMessage) (Environment, error) {
 	env.defaultCountry = envelope.DefaultCountry
 	env.numberFormat = envelope.NumberFormat
 	env.inputCollation = envelope.InputCollation
+	if env.inputCollation == "" {
+		env.inputCollation = CollationDefault
+	}
 	env.redactionPolicy = envelope.RedactionPolicy
 
 	tz, err := time.LoadLocation(envelope.Timezone)
